@@ -3,7 +3,7 @@ import json, os
 import vlib
 
 
-def replay_flow(rep, module, cases, *, k=1, env=None, timeout=900, nontrivial=None, sample_n=3, key_of=None):
+def replay_flow(rep, module, cases, *, k=1, env=None, timeout=900, nontrivial=None, sample_n=3, key_of=None, only_keys=None):
     """write cases, run `vh replay <module>`, fold verdicts into the report. Returns verdict rows."""
     wd = rep.wd
     cases = sorted(cases, key=lambda c: json.dumps(c, sort_keys=True))   # TLC's emission order depends on worker timing
@@ -19,6 +19,9 @@ def replay_flow(rep, module, cases, *, k=1, env=None, timeout=900, nontrivial=No
     if len(verdicts) < len(cases):
         raise vlib.ToolError("%s: harness returned %d verdicts for %d cases" % (module, len(verdicts), len(cases)))
     bad = [r for r in rows if ("ok" in r and not r["ok"]) or r.get("extra")]
+    if only_keys:
+        # the replay of another property's cases, run for one aspect only: mismatches of other kinds are that property's to report
+        bad = [r for r in bad if only_keys(r["key"])]
     known = set(vlib.known_findings(rep.pid).keys())
     if any(r["key"] not in known for r in bad):
         # A replay is deterministic (same cases, same seeds, a serialised driver): a mismatch that says something about the code
